@@ -37,6 +37,9 @@ CLAIMED = {
  "C14": ("N", "DESIGN.md §7 C14, §3.3",
    "Complete enumeration of all 726 fault scripts of length <= 5 over {connect fails, connect succeeds, established connection dropped} x {lazy, eager}, then seeded random scripts up to length 14 (engine N): real Channel (Buffer worker, Reconnect, hyper/h2 client) and Server; a call (sometimes two back-to-back) at every quiescent point; oracle = two-state reference automaton matching per-call outcome and connector invocation count one-to-one (connector failure => UNAVAILABLE to the triggering call only, eager initial failure reported immediately, success without rebuilding once reachable). Relaxed configuration: the connection dies at a drawn byte offset during a call => definite result, no hang/panic, recovery at the next quiescent calls.",
    "Calls are issued at quiescent points, as the property states."),
+ "C15": ("N", "DESIGN.md §7 C15, §3.3",
+   "Complete enumeration of the 486-cell matrix (client roots x domain x server ALPN x assume_http2 x server client-auth x client identity), each cell again under further seeded network schedules (engine N, real rustls on both ends of the simulated pipe): tonic ClientTlsConfig against tonic ServerTlsConfig, or against the harness's own rustls acceptor + raw h2 server for ALPN absent/http/1.1; oracle = verdict table (success iff chain valid, name matches, h2 negotiated or opted out, client-auth satisfied); in every failing cell the call does not succeed and no request reaches a handler; the captured client bytes always start with a TLS handshake record and never show the HTTP/2 preface or the request canary in clear; handlers see the verified client certificate (DER-equal); https without TLS config fails with zero bytes written.",
+   "Cells the property leaves open are not judged. rustls checks certificate validity against the wall clock (PKI valid 2020..2120). Ciphertext differs between executions; schedule, lengths and verdicts replay exactly."),
  "C16": ("F", "DESIGN.md §7 C16",
    "Seeded exploration (engine F): the real GrpcWebLayer wraps a scripted inner service; grpc-web requests (binary or one base64 string) are cut at arbitrary positions incl. inside a 4-char quantum; inner gRPC responses (frames cut anywhere, arbitrary trailers incl. repeated names/obs-text, or trailers-only) are translated for Accept binary/text/absent/other; an independent grpc-web decoder checks identical message bytes + exactly one final 0x80 trailers frame listing every trailer; the (method, version, content-type) cases are checked for 405/400/pass-through-unchanged.",
    "The layer is driven as a tower::Service (no HTTP server around it)."),
@@ -80,7 +83,7 @@ for pid, (engine, ref, text, note) in sorted(CLAIMED.items()):
 
 man = {
  "version": 1,
- "setup_cmd": "cd /verif/sim && CARGO_NET_OFFLINE=true cargo build --release --offline -p tsim",
+ "setup_cmd": "cd /verif/sim && CARGO_NET_OFFLINE=true cargo build --release --offline -p tsim && CARGO_NET_OFFLINE=true cargo build --release --offline -p tsim-tls",
  "hooks": {
    "guard": "cargo feature `verif-hooks` of crate tonic (off by default)",
    "enable": "harness depends on tonic = { path = \"/repo/tonic\", features = [\"verif-hooks\", ...] }; harness build also uses RUSTFLAGS --cfg tokio_unstable (harness only, not a source change)",
